@@ -25,6 +25,7 @@ CODES = {1: "stage went backwards", 2: "proposal id held by two stores", 3: "rec
          8: "deadline, goal, type, proposer or pass percentage of a proposal changed", 9: "balances + fee pool + proposal funds grew",
          10: "funder records survive the distribution",
          12: "a configuration update came into force for a proposal that is not recorded as passed (outcome completedYes)",
+         13: "still in the funding stage at the end of a block although the recorded total has reached the goal recorded in the proposal",
          11: "declared insufficientFunds (refundable) although the goal was met or the funding deadline had not passed"}
 
 
@@ -110,10 +111,12 @@ def run(ctx):
         by[k] = by.get(k, 0) + 1
     cov.update({
         "evaluations": rep["steps"], "distinct_nontrivial": rep["distinct_cases"],
-        "rule": "4 scripted histories = corpus cases of the four fixed findings (public expire; two finalisations in one block + zero withdrawals; negative contribution; option pass percentage raised during a vote, on a genesis with production-range options) + seeded "
+        "rule": "7 scripted histories (corpus cases of the four fixed findings; funding-goal option raised / lowered by a finalised configuration proposal while a proposal of that type is being funded; votingDeadline, passPercentage, initialFunding, fundingDeadline of a type changed while proposals of it are in funding / voting) + seeded "
                 "random governance histories on the whole application (Replica): create/fund/vote/cancel/withdraw/public expire/public "
                 "finalize from proposers, funders, strangers, a poor account, validators and non-validators, stake changes, blocks past "
-                "the deadlines; stage-biased generator; distinct = distinct operation sequences",
+                "the deadlines; stage-biased generator; every third history runs on a genesis with production-range options where "
+                "configuration proposals change fundingGoal / votingDeadline / fundingDeadline / initialFunding / passPercentage of "
+                "every type (and ONS options) while other proposals are in their funding / voting stage; distinct = distinct operation sequences",
         "traces_validated_against_impl": rep["cases"], "blocks": rep["blocks"], "proposals": rep["proposals"],
         "op_histogram": rep["op_histogram"], "ok_histogram": rep["ok_histogram"], "final_stage_histogram": rep["final_stage_histogram"],
         "model_mismatches": len(mm), "monitor_hits": by, "corpus_cases_hold": notes,
@@ -134,6 +137,12 @@ def run(ctx):
         ("pass_percentage_drift", 3, "23f7d29", "a proposal whose votes pass under its own percentage was recorded as failed / ended up in two stores",
          notes.get("drift_p1_outcome_yes") is False or notes.get("drift_p1_two_stores") or notes.get("drift_applied") != 1),
     ]
+    # directed: the funding-goal option changed by governance while a proposal of that type is being funded
+    for nm, ci in (("goalup", 4), ("goallow", 5)):
+        if notes.get(nm + "_p1_voting") is False or notes.get(nm + "_p1_final_stage_ok") is False:
+            ctx.violation("directed_" + nm, {"kind": "a proposal that met the funding goal RECORDED in it before its funding deadline is not in its "
+                          "voting stage / was thrown out of it after the funding-goal option of its type was changed by governance",
+                          "notes": notes, "args": args, "case_index": ci, "history": describe(cases[ci])})
     for name, ci, commit, what, bad in corpus:
         if bad:
             ctx.violation("corpus_" + name, {"kind": "fixed finding C14.%s (%s) fails again: %s" % (name, commit, what), "notes": notes,
